@@ -1,6 +1,6 @@
 (* Proofs/WritersChain.v -- conversion chains through the two tree formats (C02). *)
 From Pybtex Require Import Base.Prelude Base.PyChar Base.PyStr Model.BibtexStr Model.Names Model.Scanner Model.BibParser Model.Writers
-  Proofs.WritersDict Proofs.WritersTree.
+  Proofs.Writers Proofs.WritersDict Proofs.WritersTree.
 Local Open Scope N_scope.
 
 (* the common domain of the YAML and BibTeXML glue theorems *)
@@ -36,8 +36,8 @@ Proof.
     + eapply Forall_impl; [|exact Yp]. intros [k v]; cbn [fst snd]. now rewrite lower_idem.
   - unfold xml_ok, yaml_ok in *. cbn [map_ids wd_entries]. rewrite Forall_map. eapply Forall_impl; [|exact Y].
     intros e (Yf & Yp). split; cbn [map_ids_entry we_fields we_persons]; rewrite Forall_map.
-    + eapply Forall_impl; [|exact Yf]. intros [k v]; cbn [fst snd]. tauto.
-    + eapply Forall_impl; [|exact Yp]. intros [k v]; cbn [fst snd]. tauto.
+    + eapply Forall_impl; [|exact Yf]. intros [k v]; cbn [fst snd]. rewrite lower_idem. tauto.
+    + eapply Forall_impl; [|exact Yp]. intros [k v]; cbn [fst snd]. rewrite lower_idem. tauto.
 Qed.
 
 Lemma chain_rest_trees enc pc : forall fs d, Forall (fun f => f <> FBib) fs -> tree_ok d ->
@@ -86,3 +86,44 @@ Proof.
   cbn [expect]. rewrite expect_rest_entries_lower by discriminate.
   cbn [map_ids wd_entries]. now rewrite step_entries.
 Qed.
+
+(* ---- the same round trips with the serialisation library in between: [dump] / [load] are PyYAML's
+   yaml.dump (with the writer's options) and yaml.load (with the reader's loader), resp. XMLGenerator and
+   ElementTree.  The only thing assumed of them is stated as a hypothesis about the one tree at hand. *)
+Section Library.
+  Variable text : Type.
+  Variable ydump : tree -> text.
+  Variable yload : text -> res tree.
+  Variable xdump : xml -> text.
+  Variable xload : text -> res xml.
+
+  Definition write_yaml (d : wdb) : text := ydump (to_tree_yaml d).
+  Definition read_yaml (t : text) : res wdb := do tr <- yload t; from_tree_yaml tr.
+  Definition write_xml (d : wdb) : text := xdump (to_tree_xml d).
+  Definition read_xml (t : text) : res wdb := do tr <- xload t; from_tree_xml tr.
+
+  Lemma yaml_roundtrip_pf d : wf_db d -> yaml_ok d ->
+    yload (ydump (to_tree_yaml d)) = Ok (to_tree_yaml d) ->
+    read_yaml (write_yaml d) = Ok (norm_preamble d).
+  Proof. intros W Y L. unfold read_yaml, write_yaml. rewrite L. cbn [bind]. now apply yaml_glue_roundtrip_pf. Qed.
+
+  Lemma xml_roundtrip_pf d : wf_db d -> xml_ok d ->
+    xload (xdump (to_tree_xml d)) = Ok (to_tree_xml d) ->
+    read_xml (write_xml d) = Ok (drop_preamble d).
+  Proof. intros W X L. unfold read_xml, write_xml. rewrite L. cbn [bind]. now apply xml_glue_roundtrip_pf. Qed.
+
+  (* if the library re-types a scalar (the leaf 007 dumped unquoted, loaded as a number and str()-ed to 7: the tree
+     that comes back is the tree of another database) the hypothesis fails and the round trip with it:
+     the glue returns that other database *)
+  Lemma yaml_scalar_retyped_pf name v v' :
+    yaml_ok (field_db name v') ->
+    yload (ydump (to_tree_yaml (field_db name v))) = Ok (to_tree_yaml (field_db name v')) -> v <> v' ->
+    read_yaml (write_yaml (field_db name v)) = Ok (field_db name v') /\ field_db name v' <> field_db name v.
+  Proof.
+    intros Y L Hne. split.
+    - unfold read_yaml, write_yaml. rewrite L. cbn [bind].
+      rewrite yaml_glue_roundtrip_pf; [reflexivity| |exact Y].
+      split; cbn; [repeat constructor; auto|]. repeat constructor; cbn; auto.
+    - intros E. apply Hne. unfold field_db in E. congruence.
+  Qed.
+End Library.
